@@ -88,6 +88,7 @@ def run(ck, fb):
     from rules.c02 import r02h, r02i
     r02i(ck, fb, 'R01g')
     r02h(ck, fb, 'R01h')
+    ck.borrow('rules.c08', {'R08h': 'R01k'}, 'the start-up restore loads the catalogued snapshot whatever the last-applied index says')
     ck.borrow('rules.c19', {'R19a': 'R01i', 'R19b': 'R01j'}, 'issued sequence counters are part of the state a restart must reproduce: replay folds every high-water mark, the snapshot stores the reserved end')
 
 
